@@ -79,7 +79,12 @@ func propC03(r *kernel.Run) {
 			now := time.Now()
 			width := tp.DurLog(time.Nanosecond, 100*time.Hour)
 			var off time.Duration
-			switch tp.Draw(9) {
+			farYears := ""
+			switch tp.Draw(11) {
+			case 9: // a window that contains now and reaches into years a 64-bit nanosecond count cannot express
+				farYears = "contains-now"
+			case 10: // a window entirely in such years
+				farYears = "outside"
 			case 0: // now well inside
 				off = -width / 2
 			case 1: // now == notBefore+skew-ish edge cases: window starts at now+d, d in {-1,0,1}ns relative to the skewed edge
@@ -98,6 +103,25 @@ func propC03(r *kernel.Run) {
 				off = -time.Duration(tp.Int63() % int64(width+1))
 			}
 			nb, na = now.Add(off), now.Add(off).Add(width)
+			switch farYears {
+			case "contains-now":
+				if tp.Draw(2) == 0 {
+					nb, na = now.Add(-time.Hour), time.Date(2300+tp.Draw(7000), 1, 1, 0, 0, 0, 0, time.UTC)
+				} else {
+					nb, na = time.Date(1+tp.Draw(1600), 1, 1, 0, 0, 0, 0, time.UTC), now.Add(time.Hour)
+				}
+			case "outside":
+				if tp.Draw(2) == 0 {
+					nb = time.Date(2270+tp.Draw(300), 1, 1, 0, 0, 0, 0, time.UTC)
+					na = nb.AddDate(100+tp.Draw(400), 0, 0)
+				} else {
+					na = time.Date(1000+tp.Draw(670), 1, 1, 0, 0, 0, 0, time.UTC)
+					nb = na.AddDate(-(1 + tp.Draw(400)), 0, 0)
+				}
+			}
+			if farYears != "" {
+				r.Count("cfg.window_in_far_years", 1)
+			}
 			sp := ReqSpec{Cert: id, EncPub: id.EncPub, Nonce: id.Nonce, NotBefore: nb, NotAfter: na}
 			if tp.Draw(8) == 0 {
 				fieldsOK = false
